@@ -56,13 +56,24 @@ ConverseOK(c, m) ==
                                          \/ (n.sub < c.nparams[n.idx + 1] /\ n.sub = m.sub))
     [] OTHER -> FALSE    \* walrus emits no other subsection
 
+\* with generate_synthetic_names_for_anonymous_items on, an entity the input leaves anonymous may come out with an invented
+\* name: an output name is then only questioned when the input names something that is emitted in that very place
+Anonymous(c, m) ==
+  ~\E n \in Ran(c.in_names) :
+      /\ n.kind = m.kind
+      /\ CASE n.kind \in Plain -> Img(c.sigma, n.kind, n.idx) = m.idx
+           [] n.kind = "type" -> TypeImg(c, n.idx) = m.idx
+           [] n.kind = "local" -> Img(c.sigma, "func", n.idx) = m.idx /\ LmKnown(c, n.idx) /\ LmImg(c, n.idx, n.sub) = m.sub
+           [] OTHER -> TRUE
+
 Verdict(c) ==
   IF c.outcome # "ok" THEN <<"outcome", c.outcome>>
   ELSE IF ~c.out_names_ok THEN <<"output-name-section-malformed">>
-  ELSE IF \E n \in Ran(c.in_names) : ~ForwardOK(c, n) THEN
-       <<"name-lost-or-moved", CHOOSE n \in Ran(c.in_names) : ~ForwardOK(c, n), c.out_names>>
-  ELSE IF \E m \in Ran(c.out_names) : ~ConverseOK(c, m) THEN
-       <<"name-without-origin", CHOOSE m \in Ran(c.out_names) : ~ConverseOK(c, m)>>
+  \* (with synthetic names on, an *empty* input name counts as no name: the parser says so for locals)
+  ELSE IF \E n \in Ran(c.in_names) : ~ForwardOK(c, n) /\ ~(c.synth /\ n.name = "") THEN
+       <<"name-lost-or-moved", CHOOSE n \in Ran(c.in_names) : ~ForwardOK(c, n) /\ ~(c.synth /\ n.name = ""), c.out_names>>
+  ELSE IF \E m \in Ran(c.out_names) : ~ConverseOK(c, m) /\ ~(c.synth /\ Anonymous(c, m)) THEN
+       <<"name-without-origin", CHOOSE m \in Ran(c.out_names) : ~ConverseOK(c, m) /\ ~(c.synth /\ Anonymous(c, m))>>
   ELSE <<"ok">>
 
 Judge(c) == LET v == Verdict(c) IN
